@@ -268,7 +268,10 @@ class MessageManager(interfaces.TokenInterface, interfaces.MessageManager):
 
         key = (message.remote, message.mid)
         if key in self._recent_messages:
-            self._recent_messages[key] = message
+            # What is repeated for a duplicate is what was sent: the object
+            # itself stays the caller's, who may change it or hand it in
+            # again for another request.
+            self._recent_messages[key] = message.copy()
 
     #
     # coap dispatch, message-type sublayer: retransmission handling
